@@ -43,11 +43,14 @@ Section Proofs.
   Theorem position_line_col_full cps off :
     Forall cp_ok cps -> 0 <= off <= len (bytes cps) ->
     (exists pre cur post, located cps off pre cur post) /\
+    (forall pre cur post pre' cur' post', located cps off pre cur post -> located cps off pre' cur' post' ->
+       pre = pre' /\ cur = cur' /\ post = post') /\
     (forall pre cur post, located cps off pre cur post ->
        exists ctx, position graphic (bytes cps) off =
                      Done (1 + breaks (runes pre), 1 + len (last_line (runes pre)), ctx)).
   Proof.
     intros Hok Hoff. split; [apply located_exists; assumption|].
+    split; [intros pre cur post pre' cur' post'; apply located_unique; exact Hok|].
     intros pre cur post Hloc. apply (position_line_col_proof graphic cps off pre cur post); assumption.
   Qed.
 
@@ -56,6 +59,21 @@ Section Proofs.
     (offset <= 0 -> position graphic data offset = position graphic data 0) /\
     (len data <= offset -> position graphic data offset = position graphic data (len data)).
   Proof. split; [apply position_clamp_low_proof|apply position_clamp_high_proof]. Qed.
+
+  (* the position an error carries is the position of a byte inside the input (or of its end) *)
+  Theorem error_offset_in_input_proof z d :
+    buf z = d ++ [0] ->
+    exists k, 0 <= k <= len d /\ new_error_lexer graphic z = position graphic d k /\
+              (0 <= pos z <= len d -> k = pos z).
+  Proof.
+    intros Hb. destruct (new_error_lexer_total_proof graphic z d Hb) as (_ & _ & _ & _ & E).
+    pose proof (len_nonneg d).
+    destruct (Z.le_gt_cases (pos z) 0) as [L|G].
+    - exists 0. split; [lia|]. split; [rewrite E; apply position_clamp_low_proof; exact L|lia].
+    - destruct (Z.le_gt_cases (len d) (pos z)) as [L2|G2].
+      + exists (len d). split; [lia|]. split; [rewrite E; apply position_clamp_high_proof; exact L2|lia].
+      + exists (pos z). split; [lia|]. split; [exact E|reflexivity].
+  Qed.
 End Proofs.
 
 (* --- non-vacuity ----------------------------------------------------------------------- *)
